@@ -348,6 +348,55 @@ def ob_roundtrip(budget_s=120):
 KNOWN = [("MUSIC", "x.ogg"), ("NOTES2", "0000"), ("ZZFRESH", "z"), ("CREDIT", "c")]
 
 
+def ob_mirror(w, where, budget_s=120):
+    """a chart-level SSC-only property whose non-default value is EQUAL to the value the simfile (or the simfile template) holds
+    under the same key: it is still judged by its own default, i.e. refused under ERROR_UNLESS_DEFAULT / ERROR, left out under
+    IGNORE; the behaviour of its kind is a solver-guided choice (4 values + unspecified)"""
+    import z3
+    symx, mods = _setup()
+    C, SM, SSC = mods["simfile.convert"], mods["simfile.sm"], mods["simfile.ssc"]
+    sim_tab, cht_tab = _tables(C, SM)
+    cht_keys = [(k, kind) for kind in KINDS for k in cht_tab.get(kind, []) if k != "WARPS"]
+    sim_invalid = {k for v in sim_tab.values() for k in v}
+
+    def run():
+        k, kind = cht_keys[w]
+        if k in sim_invalid:
+            return True, ("not storable on SM simfile level", k)
+        value = "7.000=7.000" if k not in ("CREDIT", "CHARTNAME", "CHARTSTYLE", "MUSIC") else "mirror!"
+        src = SSC.SSCSimfile(string=""); src["VERSION"] = "0.83"; src["TITLE"] = "t!"
+        st = None
+        if where == "source":
+            src[k] = value
+        else:
+            st = SM.SMSimfile(string=""); st["TITLE"] = "template title"; st[k] = value
+        ch = SSC.SSCChart()
+        for f in SIX[:5]:
+            ch[f] = f.lower() + "!"
+        ch[k] = value
+        ch["NOTES"] = "0000"
+        src.charts.append(ch)
+        bi = symx.choose("beh", 5)          # 4 behaviours + unspecified
+        beh = {} if bi == 4 else {C.PropertyType[kind]: C.InvalidPropertyBehavior[BEH[bi]]}
+        eff = DEFAULT_BEH[kind] if bi == 4 else BEH[bi]
+        try:
+            out = C.ssc_to_sm(src, simfile_template=st, invalid_property_behaviors=beh)
+            outcome = "ok"
+        except C.InvalidPropertyException as e:
+            outcome, out = "invalid", str(e)
+        except KeyError:
+            if eff == "COPY_ANYWAY":
+                raise symx.Prune()     # known finding (named by the property): chart key under COPY_ANYWAY ends in a bare KeyError
+            return False, ("bare KeyError", k, eff)
+        want = "invalid" if eff in ("ERROR_UNLESS_DEFAULT", "ERROR") else "ok"
+        if outcome != want:
+            return False, ("mirror", k, eff, outcome, want)
+        if outcome == "invalid":
+            return repr(k) in out, ("exception names", k, out[:60])
+        return True, ("mirror ok", k, eff)
+    return symx.explore(run, budget_s=budget_s)
+
+
 def ob_known(i, budget_s=60):
     """known findings named by the property: chart keys the SM chart cannot hold end in a bare KeyError"""
     symx, mods = _setup()
@@ -387,6 +436,10 @@ def obligations(tier):
         obs.append(dict(name=f"policy[only SSC-only property #{w} present]", func="ob_policy", args=("one", w, None), budget_s=b, bounds="exactly one SSC-only property present (index into the regenerated tables)"))
     obs.append(dict(name="sequence of two conversions", func="ob_sequence", args=(), budget_s=b, bounds="earlier call with one (kind, behaviour) pair out of 5x4, later call with at most one specified kind"))
     obs.append(dict(name="roundtrip sm->ssc->sm", func="ob_roundtrip", args=(), budget_s=b, bounds="blank/empty SM base, STOPS empty/non-empty, ANIMATIONS alias, 0..2 charts, template on/off"))
+    for w in range(ncht - (1 if any("WARPS" in v for v in cht_tab.values()) else 0)):
+        for where in ("source", "template"):
+            obs.append(dict(name=f"mirror[chart SSC-only property #{w} equals the {where}'s value]", func="ob_mirror", args=(w, where), budget_s=60,
+                            bounds="one chart-level SSC-only property (index into the regenerated table) with a non-default value equal to the simfile-level value of the same key (source or simfile template); behaviour of its kind: 4 values + unspecified"))
     for i in range(len(KNOWN)):
         obs.append(dict(name=f"known[{KNOWN[i][0]}]", func="ob_known", args=(i,), budget_s=60, bounds="dedicated probe of a known finding"))
     return obs
@@ -415,6 +468,37 @@ def replay(data):
         except Exception as e:
             return True, f"ssc_to_sm with chart key {k} raises bare {type(e).__name__}"
         return False, "converted"
+    if data["func"] == "ob_mirror":
+        m = data["model"] or {}
+        w, where = data["args"]
+        sim_tab = {k.name: list(v) for k, v in C.INVALID_PROPERTIES[SMSimfile].items()}
+        cht_tab = {k.name: list(v) for k, v in C.INVALID_PROPERTIES[SMChart].items()}
+        cht_keys = [(k, kind) for kind in KINDS for k in cht_tab.get(kind, []) if k != "WARPS"]
+        k, kind = cht_keys[w]
+        value = "7.000=7.000" if k not in ("CREDIT", "CHARTNAME", "CHARTSTYLE", "MUSIC") else "mirror!"
+        src = SSCSimfile(string=""); src["VERSION"] = "0.83"; src["TITLE"] = "t!"
+        st = None
+        if where == "source":
+            src[k] = value
+        else:
+            st = SMSimfile(string=""); st["TITLE"] = "template title"; st[k] = value
+        ch = SSCChart()
+        for f in SIX[:5]:
+            ch[f] = f.lower() + "!"
+        ch[k] = value; ch["NOTES"] = "0000"
+        src.charts.append(ch)
+        bi = int(Fraction(m.get("beh", "4")))
+        beh = {} if bi == 4 else {C.PropertyType[kind]: C.InvalidPropertyBehavior[BEH[bi]]}
+        eff = DEFAULT_BEH[kind] if bi == 4 else BEH[bi]
+        try:
+            C.ssc_to_sm(src, simfile_template=st, invalid_property_behaviors=beh)
+            outcome = "ok"
+        except C.InvalidPropertyException as e:
+            outcome = "invalid" if repr(k) in str(e) else "invalid but names another property: %s" % e
+        except KeyError:
+            return eff != "COPY_ANYWAY", "bare KeyError"
+        want = "invalid" if eff in ("ERROR_UNLESS_DEFAULT", "ERROR") else "ok"
+        return outcome != want, f"chart {k}={value!r} equal to the {where}'s {k}, behaviour of {kind} = {eff}: outcome {outcome}, documented {want}"
     if data["func"] == "ob_sequence":
         m = data["model"] or {}
         gi = lambda k: int(Fraction(m.get(k, "0")))
